@@ -321,6 +321,13 @@ def gen_cron(rng, at_us):
         fields[3] = "*"
     if rng.random() < 0.4:
         fields[rng.choice([2, 4])] = "*"
+    if "*" not in (fields[2], fields[3], fields[4]):
+        # never a day-of-month list that occurs in none of the listed months (31 in 2,4; 30-31 in 2) together with a
+        # restricted day of week: crontab still fires on the weekdays, croniter 6.2.4's match() never does (notes/C07.md)
+        maxd = {1: 31, 2: 29, 3: 31, 4: 30, 5: 31, 6: 30, 7: 31, 8: 31, 9: 30, 10: 31, 11: 30, 12: 31}
+        doms = cron_expand(fields[2], 1, 31)
+        if not any(v <= maxd[m] for v in doms for m in cron_expand(fields[3], 1, 12)):
+            fields[2] = "*"
     return {"cron": fields, "txt": "cron(" + " ".join(fields) + ")"}
 
 
